@@ -81,8 +81,8 @@ static void r_spread(Ctx& c)        { aMatrix n = spread<0>(c.a * c.p, 2); c.out
 static void s_outer(Ctx& c)         { c.m.resize(c.s, c.s); c.m = outer_product(c.a, c.b); }
 static void r_diag_vector(Ctx& c)   { aVector v = diag_vector(c.m * c.m); c.outv.link(v); }
 static void r_diag_vector_m1(Ctx& c){ aVector v = diag_vector(c.m * c.p, c.s > 1 ? 1 : 0); c.outv.link(v); }
-static void r_diag_vector_n1(Ctx& c){ aVector v = diag_vector(c.m * c.p, c.s > 1 ? -1 : 0); c.outv.link(v); }   // sub-diagonal of a non-symmetric matrix
-static void r_diag_vector_n2(Ctx& c){ aVector v = diag_vector(c.m + c.m * c.p, c.s > 2 ? -2 : 0); c.outv.link(v); }
+static void r_diag_vector_n1(Ctx& c){ aVector v = diag_vector(c.m * c.p + spread<0>(c.a, c.s), c.s > 1 ? -1 : 0); c.outv.link(v); }   // sub-diagonal of a NON-symmetric matrix (element (i,j) gets a(j) added)
+static void r_diag_vector_n2(Ctx& c){ aVector v = diag_vector(c.m + spread<0>(c.a * c.q, c.s), c.s > 2 ? -2 : 0); c.outv.link(v); }
 // ---- user-supplied dependences
 static void s_dep(Ctx& c)           { c.xs[0] = c.p; c.xs[1] = c.q; c.xs[2] = c.p * c.q; c.mult[0] = 0.5; c.mult[1] = 0.0; c.mult[2] = 0.5; }
 static void r_dependence(Ctx& c)    { adouble y = 2.0; y.add_derivative_dependence(c.xs, c.mult, 3); y.append_derivative_dependence(c.xs, c.mult, 2);
